@@ -107,7 +107,7 @@ manifest = {
         "add_only": True,
     },
     "engines": [
-        {"name": f"altsim/{w}", "path": f"/verif/altsim/src/{w}.rs", "serves_properties": sorted(p), "kind_free_text": "world of the altsim deterministic simulator (seeded PRNG decides scenario, operations, faults; real altrios-core objects; reference-model monitors)"}
+        {"name": f"altsim/{w}", "path": (f"/verif/altsim/src/{w}.rs" if "+" not in w else "/verif/altsim/src"), "serves_properties": sorted(p), "kind_free_text": "world of the altsim deterministic simulator (seeded PRNG decides scenario, operations, faults; real altrios-core objects; reference-model monitors)"}
         for w, p in sorted(worlds.items())
     ],
     "checks": checks,
